@@ -189,6 +189,8 @@ class C19:
     def policy(self, case, rng):
         from dsim import harness
 
+        if case["kind"] == "mw":
+            return harness.draw_policy(rng, self.policy_weights)
         if case["kind"] == "rt" or not case["cfg"]["auto_refresh"]:
             return {"kind": "none"}
         return harness.draw_policy(rng, self.policy_weights)
@@ -203,6 +205,8 @@ class C19:
             return {"kind": "rt", "cfg": {"auto_refresh": False}, "texts": texts, "bases": bases}
         if rng.random() < 0.12:
             return self._gen_pf(rng)
+        if rng.random() < 0.12:
+            return self._gen_mw(rng)
         W = rng.choice([24, 40, 60])
         cfg = {"width": W, "height": rng.choice([6, 10]), "display": rng.choice(["live", "progress"]),
                "auto_refresh": rng.random() < 0.4, "rps": rng.choice([4, 20]), "transient": rng.random() < 0.3,
@@ -324,6 +328,25 @@ class C19:
         events.append(["flush", "o"])
         return {"kind": "pf", "cfg": {"auto_refresh": False}, "events": events}
 
+    def _gen_mw(self, rng):
+        """Several threads write to the same redirected stream at once, as worker threads that
+        print() do.  Every write() is one or more *whole* unstyled lines (no partial line is ever
+        pending, no SGR state to carry), so whatever the interleaving each line must come out once,
+        whole, and in its writer's order."""
+        threads = []
+        for t in range(rng.randint(2, 3)):
+            writes = []
+            k = 0
+            for _ in range(rng.randint(1, 4)):
+                lines = []
+                for _ in range(rng.choice([1, 1, 1, 2, 3])):
+                    lines.append("M%d_%dz %s" % (t, k, " ".join(rng.choice(WORDS[:3] + ["third", "x y", "[b]"]) for _ in range(rng.randint(0, 2)))))
+                    k += 1
+                writes.append("".join(ln.rstrip() + "\n" for ln in lines))
+            threads.append(writes)
+        return {"kind": "mw", "cfg": {"auto_refresh": False, "opcode": rng.random() < 0.5, "live": rng.random() < 0.5,
+                                      "chan": rng.choice(["o", "o", "e", "both"])}, "threads": threads}
+
     def _encode(self, cfg, line):
         if not line:
             return ""
@@ -335,12 +358,32 @@ class C19:
             return RoundTrip(sim, case, env)
         if case["kind"] == "pf":
             return ProxyFault(sim, case, env)
+        if case["kind"] == "mw":
+            return MultiWriter(sim, case, env)
         return Proxy(sim, case, env)
 
     def finish(self, sim, case, prog):
         return prog.finish()
 
     def shrink(self, case):
+        if case["kind"] == "mw":
+            th = case["threads"]
+            for i in range(len(th) - 1, -1, -1):
+                if len(th) > 2:
+                    c = copy.deepcopy(case)
+                    del c["threads"][i]
+                    yield c
+                for j in range(len(th[i]) - 1, -1, -1):
+                    if len(th[i]) > 1:
+                        c = copy.deepcopy(case)
+                        del c["threads"][i][j]
+                        yield c
+            for key, val in (("opcode", False), ("live", False), ("chan", "o")):
+                if case["cfg"].get(key) != val:
+                    c = copy.deepcopy(case)
+                    c["cfg"][key] = val
+                    yield c
+            return
         if case["kind"] == "rt":
             for i in range(len(case["texts"]) - 1, -1, -1):
                 c = copy.deepcopy(case)
@@ -563,6 +606,97 @@ class ProxyFault:
                 v.append({"oracle": "exception", "sig": "exception:" + type(t.exc).__name__, "msg": "%s died: %s" % (t.name, (t.tb or "")[-600:]), "seq": self.sim.seq})
         return {"violations": v, "faults": {"failed_prints_under_proxy": self.failed}, "probes": {"pf_runs": 1, "pf_failed_prints": self.failed, "pf_lines_completed": self.completed},
                 "nontrivial": self.completed > 0, "sample": {"kind": "pf", "events": self.case["events"][:10]}}
+
+
+class MultiWriter:
+    """Worker threads writing whole lines to the redirected stdout / stderr of one display."""
+
+    def __init__(self, sim, case, env):
+        from rich.console import Console
+
+        self.sim = sim
+        self.case = case
+        self.viol = []
+        self.file = SimFile(sim, tty=True)
+        self.console = Console(file=self.file, width=120, height=40, force_terminal=True, color_system="truecolor", _environ={})
+        self.n = len(case["threads"])
+        self.done = 0
+        self.ready = sched.SimEvent()
+        self.finished = sched.SimEvent()
+        for t in range(self.n):
+            sim.spawn(self._body(t), "c%d" % t)
+
+    def _v(self, oracle, sig, msg):
+        if not self.viol:
+            self.viol.append({"oracle": oracle, "sig": sig, "msg": msg, "seq": self.sim.seq})
+
+    def _streams(self):
+        return {"o": sys.stdout, "e": sys.stderr}
+
+    def _body(self, t):
+        def run():
+            cfg = self.case["cfg"]
+            if t == 0:
+                import io as _io
+
+                from rich.file_proxy import FileProxy
+                from rich.live import Live
+
+                if cfg["live"]:
+                    self.display = Live("F0 frame", console=self.console, auto_refresh=False, redirect_stdout=True, redirect_stderr=True)
+                    self.display.start()
+                    self.out = self._streams()
+                else:
+                    self.display = None
+                    self.out = {"o": FileProxy(self.console, _io.StringIO()), "e": FileProxy(self.console, _io.StringIO())}
+                self.ready.set()
+            else:
+                self.ready.wait()
+            try:
+                for i, chunk in enumerate(self.case["threads"][t]):
+                    self.sim.yield_point("op")
+                    ch = cfg["chan"] if cfg["chan"] != "both" else "oe"[(t + i) % 2]
+                    self.out[ch].write(chunk)
+            finally:
+                self.done += 1
+                if self.done == self.n:
+                    self.finished.set()
+            if t == 0:
+                self.finished.wait()
+                if self.display is not None:
+                    self.display.stop()
+        return run
+
+    def finish(self):
+        v = list(self.viol)
+        for t in self.sim.threads:
+            if t.exc is not None:
+                v.append({"oracle": "exception", "sig": "exception:" + type(t.exc).__name__, "msg": "%s died: %s" % (t.name, (t.tb or "")[-600:]), "seq": self.sim.seq})
+        written = [[ln for chunk in th for ln in chunk.split("\n")[:-1]] for th in self.case["threads"]]
+        if not v and self.sim.failure is None:
+            # stream level (what was printed through the console), not screen level: with a live
+            # frame two printing threads are the known finding F6 on the screen
+            # (a printed line starts right after the cursor controls that erase the frame, so in the
+            # visible text it may follow frame text without a newline: lines are taken from their
+            # token to the end of the line)
+            got = [ln.rstrip() for ln in re.findall(r"M\d+_\d+z[^\n]*", term.visible_text(self.file.getvalue()))]
+            allw = [ln for th in written for ln in th]
+            if sorted(got) != sorted(allw):
+                lost = [ln for ln in allw if ln not in got]
+                odd = [ln for ln in got if ln not in allw]
+                v.append({"oracle": "complete", "sig": "concurrent-line-lost-or-merged", "seq": self.sim.seq,
+                          "msg": "whole lines written by %d threads: not printed exactly once and whole -- missing %r, not written by anyone %r" % (self.n, lost[:6], odd[:6])})
+            else:
+                for t, th in enumerate(written):
+                    mine = [ln for ln in got if ln.startswith("M%d_" % t)]
+                    if mine != th:
+                        v.append({"oracle": "order", "sig": "concurrent-line-order", "seq": self.sim.seq,
+                                  "msg": "lines of thread %d printed as %r, written as %r" % (t, mine, th)})
+                        break
+        nlines = sum(len(th) for th in written)
+        return {"violations": v, "faults": {"preemptions": max(0, self.sim.switches - len(self.sim.threads))},
+                "probes": {"mw_runs": 1, "mw_lines": nlines, "mw_switches": self.sim.switches},
+                "nontrivial": self.sim.switches > len(self.sim.threads), "sample": {"kind": "mw", "threads": self.case["threads"]}}
 
 
 class Proxy:
